@@ -26,6 +26,14 @@ def main():
     pid = a.pid.upper()
     ctx = common.Ctx(pid, tier, seed)
     mod = importlib.import_module('props.' + pid.lower())
+    # watchdog: a check that hangs (e.g. a generator loop) is reported as broken instead of blocking the caller
+    import signal
+    limit = int(os.environ.get('VERIF_WATCHDOG', '1500' if tier == 'quick' else '10800'))
+
+    def on_alarm(signum, frame):
+        raise TimeoutError('check exceeded the watchdog limit of %d s' % limit)
+    signal.signal(signal.SIGALRM, on_alarm)
+    signal.alarm(limit)
     try:
         if a.replay:
             rp = json.load(open(a.replay))
